@@ -507,6 +507,22 @@ SPECIAL_TEXTS = ["\ufeffsession closed", "\ufeff", "a\ufeff", "bye\n", "bye\r\n"
                  "\U0001f600", "x\U0001f600", "user@host", "@", "\u200bz", "BYE", "bye.", "caf\u00e9", "e\u0301"]
 
 
+def bye_empty_reason(r):
+    """BYE packets whose reason is present and empty (`00 00 00 00` after the sources), and near misses;
+    no builder writes them: parsed directly, through the generic parser, and padded"""
+    out = []
+    for ns in (0, 1, 2, 31):
+        src = b"".join(struct.pack(">I", 0x01020300 + i) for i in range(ns))
+        for tail in (bytes(4), bytes([0, 0, 0, 1]), bytes([0, 1, 0, 0]), bytes([1, 0x61, 0, 0]), bytes([0, 0x61, 0x62, 0x63]), bytes(8), bytes([3, 0, 0, 0])):
+            body = src + tail
+            b = bytes([0x80 | ns, 203]) + struct.pack(">H", (4 + len(body)) // 4 - 1) + body
+            out.append(P("bye", b)); out.append(P("packet", b))
+            for n in (4, 8, 252):
+                out.append((f"(pad bye {B(b)} {n})", {"op": "pad", "kind": "bye", "bytes": b, "n": n}))
+                out.append((f"(pad packet {B(b)} {n})", {"op": "pad", "kind": "packet", "bytes": b, "n": n}))
+    return out
+
+
 def custom_kinds():
     return [("custom", pt, mn) for pt in gen.CUSTOM_PTS for mn in PARSE_MINS]
 
@@ -570,8 +586,8 @@ def boundary_cfgs(kind, r, tier):
                                 "reason": gen.r_text(r, rl) if rl else None, "reason_call": r.choice(["reason", "reason_owned"])})
         for p in pads_all:
             out.append({"k": "bye", "padding": p, "sources": [7], "reason": b"ab", "reason_call": "reason"})
-        for ns in range(0, 35):
-            out.append({"k": "bye", "padding": 0, "sources": list(range(ns)), "reason": None})
+        for ns in list(range(0, 35)) + [63, 64, 65, 255, 256, 257, 287, 288, 512, 543]:
+            out.append({"k": "bye", "padding": 0, "sources": list(range(ns)), "reason": None if ns % 2 else b"bye", "reason_call": "reason"})
         for txt in (" ", "  ", "\t", "\r\n", "\u00a0\u2003", " a", "a ", "\n", "\0", " \0"):
             for p_ in (0, 4):
                 out.append({"k": "bye", "padding": p_, "sources": [3], "reason": txt.encode(), "reason_call": r.choice(["reason", "reason_owned"])})
@@ -587,6 +603,11 @@ def boundary_cfgs(kind, r, tier):
         for nb in range(0, 34):
             c = (gen.cfg_sr if kind == "sr" else gen.cfg_rr)(r)
             c["rbs"] = [gen.r_rb(r) for _ in range(nb)]; c["padding"] = r.choice(pads_legal)
+            out.append(c)
+        # far beyond the limit, at counts that alias 0..31 modulo 32 / 256 (a count kept in a narrow integer)
+        for nb in (63, 64, 65, 95, 255, 256, 257, 287, 288, 512, 543):
+            c = (gen.cfg_sr if kind == "sr" else gen.cfg_rr)(r)
+            c["rbs"] = [gen.r_rb(r) for _ in range(nb)]; c["padding"] = r.choice([0, 4])
             out.append(c)
         for p in pads_all:
             c = (gen.cfg_sr if kind == "sr" else gen.cfg_rr)(r); c["padding"] = p; c["rbs"] = c["rbs"][:2]
@@ -725,6 +746,11 @@ def boundary_cfgs(kind, r, tier):
                 out.append({"k": "tfb", "mode": "borrowed", "fci": {"k": "nack", "seqs": seqs}, "padding": r.choice(pads_legal), "sender": 1, "media": 2})
         out.append({"k": "tfb", "mode": "owned", "fci": {"k": "nack", "seqs": list(range(0, 65536, 1 if full else 5))}, "padding": 0, "sender": 1, "media": 2, "_size_only": True, "_big": True})
         out.append({"k": "tfb", "mode": "owned", "fci": {"k": "nack", "seqs": list(range(0, 3000, 2)) + list(range(65000, 65536))}, "padding": 4, "sender": 1, "media": 2, "_big": True})
+        # every sequence number, all but one, all but two (3856 / 3855 words), inserted in descending order
+        for drop in ((), (0, 65535)):
+            out.append({"k": "tfb", "mode": r.choice(["owned", "borrowed"]), "fci": {"k": "nack", "seqs": [x for x in range(65535, -1, -1) if x not in drop]},
+                        "padding": r.choice([0, 4]), "sender": 1, "media": 2, "_big": True, "_light": True})
+        out.append({"k": "tfb", "mode": "owned", "fci": {"k": "nack", "seqs": list(range(65535, -1, -17))}, "padding": 0, "sender": 1, "media": 2, "_big": True, "_light": True})
         # FIR count limits
         for nf in ((32765, 32766, 32767) if full else (32766, 32767)):
             for p in ((0, 4, 8) if full else (0, 8)):
@@ -799,6 +825,13 @@ def boundary_cfgs(kind, r, tier):
                     if last["k"] != "compound": last["padding"] = r.choice([4, 8])
                 out.append(c)
                 top = build(iter(shape[1:]))
+        # third-party writers whose image is not a whole number of words, in non-last positions (the
+        # compound is their concatenation all the same; it is the caller's business what it means)
+        CU = lambda mn, bl, pt=242: {"k": "custom", "pt": pt, "min": mn, "body": gen.r_bytes(r, bl), "padding": 0}
+        RR0 = lambda: {"k": "rr", "ssrc": gen.r_u32(r), "padding": 0, "rbs": []}
+        for ms in ([CU(13, 4), RR0()], [RR0(), CU(6, 0), {"k": "bye", "padding": 0, "sources": [5], "reason": None}], [CU(13, 8), CU(6, 1), RR0()],
+                   [CU(4, 1), RR0()], [CU(4, 2), CU(4, 3), RR0()], [RR0(), CU(13, 0)], [{"k": "compound", "members": [CU(6, 0), RR0()]}, RR0()]):
+            out.append({"k": "compound", "_keep": True, "members": ms})
         U = lambda pt=242: {"k": "custom", "unit": True, "pt": pt, "min": 8, "body": bytes(4), "padding": 0}
         for ms in ([U(), U()], [U(), {"k": "rr", "ssrc": 1, "padding": 0, "rbs": []}, U(), U()], [U(208), U(242), U(208)], [U()],
                    [U(), U(), {"k": "bye", "padding": 4, "sources": [1], "reason": None}]):
